@@ -17,6 +17,7 @@ import (
 	"strconv"
 	"strings"
 	"sync"
+	"sync/atomic"
 	"testing"
 )
 
@@ -322,4 +323,31 @@ func Main(m *testing.M, id string) {
 	code := m.Run()
 	Flush()
 	os.Exit(code)
+}
+
+var inconclusiveSeen int64
+
+// Inconclusive records a case for which no verdict was reached (quiescence not reached within
+// the wall-clock budget: a loaded machine). A few per process are tolerated — counted in the
+// evidence as inconclusive_cases, the case is neither a pass nor a failure — so that a blip on
+// a busy machine does not turn the whole run into "inconclusive"; more than
+// VERIF_MAX_INCONCLUSIVE (default 3) per process means something systematic and ends the
+// process (exit 2 from the driver).
+func Inconclusive(t TB, msg string) {
+	Count("inconclusive_cases", 1)
+	n := atomic.AddInt64(&inconclusiveSeen, 1)
+	max := int64(3)
+	if v, err := strconv.ParseInt(os.Getenv("VERIF_MAX_INCONCLUSIVE"), 10, 64); err == nil {
+		max = v
+	}
+	// keep the case for study: the case in progress is the one WriteCurrent saved last
+	if dir := os.Getenv("VERIF_REPLAY_DIR"); dir != "" {
+		if b, err := os.ReadFile(filepath.Join(dir, "current-"+os.Getenv("VERIF_RUN_ID")+".json")); err == nil {
+			os.WriteFile(filepath.Join(dir, fmt.Sprintf("noverdict-%s-%d.json", os.Getenv("VERIF_RUN_ID"), n)), b, 0644)
+		}
+	}
+	if n > max {
+		t.Fatalf("VERIF-INCONCLUSIVE (%d cases without a verdict in this process) %s", n, msg)
+	}
+	fmt.Fprintf(os.Stderr, "[ev] case without a verdict tolerated (%d of at most %d): %s\n", n, max, msg)
 }
